@@ -552,7 +552,9 @@ def batch_numpy_target_names(ctx):
     from ..refeval import close, evaluate
     from pytato.target.python.numpy_like import generate_numpy_like
     tgt = pytarget.numpy_target()
-    gen_ids = ["np", "numpy", "knl", "dtype", "float32", "reshape", "_", "e", "where", "sum", "int", "len", "tuple"]
+    gen_ids = ["np", "numpy", "knl", "dtype", "float32", "reshape", "_", "e", "where", "sum", "int", "len", "tuple",
+               # valid identifiers for Array names that are keywords of the target language
+               "lambda", "class", "for", "None", "import", "def", "is"]
     cases = dis = rejected = 0
 
     def graphs(nm, role):
@@ -604,6 +606,37 @@ def batch_numpy_target_names(ctx):
                    identifiers=gen_ids)
 
 
+def batch_c_keywords(ctx):
+    """user names that are keywords of C (the language loopy's targets print): the argument must appear under exactly
+    that name in a program that works, or the name must be refused with a diagnostic — a kernel that does not
+    compile is neither"""
+    import pytato as pt
+    names = ["int", "double", "float", "char", "for", "if", "return", "auto", "inline", "restrict", "switch", "long"]
+    x = np.arange(4.0)
+    jobs = []
+    for nm in names:
+        a = pt.make_placeholder(nm, (4,), np.float64)
+        jobs.append(cexec.Job(tag=f"in:{nm}", expr=pt.make_dict_of_named_arrays({"o": a * 2 + 1}), runs=[{nm: x}], kir_orders=0))
+        b = pt.make_placeholder("b", (4,), np.float64)
+        jobs.append(cexec.Job(tag=f"out:{nm}", expr=pt.make_dict_of_named_arrays({nm: b * 2 + 1}), runs=[{"b": x}], kir_orders=0))
+    dis = 0
+    for j, r in zip(jobs, cexec.run_jobs(ctx, jobs)):
+        role, nm = j.tag.split(":")
+        if r.error and r.stage in ("generate", "prep") and r.error_class in ("ValueError", "NameClashError"):
+            continue        # refused with a diagnostic
+        if r.error:
+            dis += 1
+            ctx.violation("names:c-keyword-as-user-name",
+                          f"{'input' if role == 'in' else 'output'} called {nm!r} (a C keyword) is accepted, and the generated "
+                          f"code fails at stage {r.stage}: {str(r.error).splitlines()[0][:120]}", {"name": nm, "role": role})
+            continue
+        key = "o" if role == "in" else nm
+        if not r.outputs or not np.allclose(r.outputs[0].get(key), x * 2 + 1):
+            dis += 1
+            ctx.violation("names:c-keyword-as-user-name:wrong-values", f"{role} called {nm!r}: wrong values", {"name": nm})
+    ctx.note_batch("c-keywords-as-user-names", len(jobs), dis, exhaustive=False, names=names)
+
+
 def run(ctx: common.Ctx):
     ctx.assumptions += [
         "pytools' UniqueNameGenerator and loopy's own name generation are modelled / observed, not verified",
@@ -615,6 +648,7 @@ def run(ctx: common.Ctx):
     batch_adversarial_tags(ctx)
     batch_scenarios(ctx)
     batch_numpy_target_names(ctx)
+    batch_c_keywords(ctx)
     ctx.broken = sorted(set(ctx.broken))[:50]
 
 
